@@ -13,7 +13,7 @@ from . import astutil as A
 _UNKNOWN = object()
 
 
-def explore(cfg, env0, funcs=None, on_node=None, max_states=20000, start=None, unknown='both'):
+def explore(cfg, env0, funcs=None, on_node=None, max_states=20000, start=None, unknown='both', on_unknown=None):
     """Explore all abstract states reachable from entry with environment `env0` (dict path -> constant).
     `on_node(node, env)` is called for every (node, env) visited; returns the set of visited node ids.
     `start`: node to start from (default entry).  `unknown`: 'both' follows both edges of a test that is not closed,
@@ -35,6 +35,8 @@ def explore(cfg, env0, funcs=None, on_node=None, max_states=20000, start=None, u
             for s, l in nd.succ:
                 if l == 'exc':
                     continue
+                if val is _UNKNOWN and on_unknown is not None:
+                    on_unknown(nd, env)
                 if val is _UNKNOWN and unknown == 'stop':
                     continue
                 if val is _UNKNOWN or (val and l == 'T') or (not val and l == 'F'):
